@@ -17,6 +17,7 @@ EXPLANATION = (
     "getters report the lists rescale used (C12.REPORTS); no hidden per-instance or module state (C12.STATE). "
     "Decides these structural necessary conditions, not floating-point error magnitudes."
     '  The float-exact rewriting knows sign symmetry and commutativity (both exact) and inlines derived locals of the enclosing function.'
+    '  C12.SHARED-LIST: a list held in _domain/_range that escapes (returned as itself by a getter, kept from a parameter as given) is never rewritten in place by a method of the class (field-granular escape sites x effect summaries; D12).'
 )
 ASSUMPTIONS = ["float arithmetic obeys the listed exact identities for finite operands", "domain end points distinct (the property's non-degenerate case)"]
 
